@@ -14,6 +14,21 @@ pub assume_specification [i64::unsigned_abs] (x: i64) -> (r: u64)
 pub assume_specification<'a, T: Copy> [Option::<&T>::copied] (o: Option<&'a T>) -> (r: Option<T>)
     ensures o is None ==> r is None, o is Some ==> r == Some(*o.unwrap());
 
+// std combinators without a vstd spec (so that code using them stays inside the accepted subset)
+pub assume_specification<T> [Option::<Option<T>>::flatten] (o: Option<Option<T>>) -> (r: Option<T>)
+    ensures r == (match o { Some(Some(x)) => Some(x), _ => None::<T> });
+pub assume_specification<T, P: FnOnce(&T) -> bool> [Option::<T>::filter] (o: Option<T>, p: P) -> (r: Option<T>)
+    requires o is Some ==> p.requires((&o.unwrap(),)),
+    ensures o is None ==> r is None, o is Some ==> ((r == o && p.ensures((&o.unwrap(),), true)) || (r is None && p.ensures((&o.unwrap(),), false)));
+pub assume_specification<T> [Option::<T>::or] (o: Option<T>, b: Option<T>) -> (r: Option<T>)
+    ensures r == (if o is Some { o } else { b });
+pub assume_specification<T, U, F: FnOnce(T) -> U> [Option::<T>::map_or] (o: Option<T>, d: U, f: F) -> (r: U)
+    requires o is Some ==> f.requires((o.unwrap(),)),
+    ensures o is None ==> r == d, o is Some ==> f.ensures((o.unwrap(),), r);
+
+pub assume_specification<T> [bool::then_some] (b: bool, t: T) -> (r: Option<T>)
+    ensures b ==> r == Some(t), !b ==> r is None;
+
 pub open spec fn spec_be16(a: u8, b: u8) -> u16 { ((a as u16) << 8) | (b as u16) }
 pub open spec fn spec_be32(a: u8, b: u8, c: u8, d: u8) -> u32 {
     ((a as u32) << 24) | ((b as u32) << 16) | ((c as u32) << 8) | (d as u32)
